@@ -124,6 +124,18 @@ PROPS["C18"] = {
     "level_note": LEVEL_NOTE_GBN + " Additionally trusts the race detector and the RaceDisable/RaceEnable discipline of simrt (validated: a deliberately racy toy and the pre-fix ticker are reported on every run).",
 }
 
+PROPS["C07"] = {
+    "pkgs": ["gbn"],
+    "level": "fault_enumeration",
+    "quick_budget": 70, "thorough_budget": 1800,
+    "rule": "Enumerated: gbn.Deserialize on every byte string of length 0..3 and (thorough: all 2^32; quick: first byte a packet type, 0x00 or 0xFF) 4-byte strings; all 256 SYN window values proposed by a scripted conforming client to a real server, plain and restarted handshake, followed by data in both directions. Sampled: garbage (every type byte x lengths 0..6, all ACK/NACK/SYN byte values, DATA with arbitrary header bytes, truncated/extended/bit-flipped captured packets, random longer strings) injected toward either live endpoint in every phase (before/inside the handshake, idle, k packets outstanding, mid-resend), followed by a conforming exchange. Oracle: no task panics (caught at the task root with stack); white-box window invariants after each injection (s = n+1 >= 2, base/top/recvSeq < s, size <= n)." + SIG_RULE + " For enumerated sub-batches a case is one first byte / one SYN value.",
+    "assumptions": ["GBN packets are unauthenticated: a forged but well-formed ACK/DATA may legitimately disturb the stream (counted by a probe); only crashes and bookkeeping outside the valid range are violations"],
+    "components": GBN_COMPONENTS,
+    "expected_probes": ["c07.deserialize-cases", "c07.scripted-exchange-complete", "c07.server-refused-window"],
+    "level_text": "Fault enumeration: the finite sets named in the rule (all short byte strings into the decoder, all 256 proposals of the SYN window field) are enumerated completely against the real code; injections into live simulated endpoints are seeded samples over phases and schedules.",
+    "level_note": LEVEL_NOTE_GBN,
+}
+
 # Properties that are pure functions of their input: no schedule, clock, fault
 # or interleaving enters them, so deterministic simulation has nothing to decide.
 NOT_APPLICABLE = {
